@@ -71,8 +71,11 @@ def run_query_case(case):
     out = dict(case)
     out["evs"] = []
     try:
+        froms = {} if case.get("share_froms") else None
         for q in case["qs"]:
             b = QueryBuilder(q, heap, shared)
+            if froms is not None:
+                b.froms = froms
             b.build()
             builders.append(b)
     except Exception as e:           # building must not fail on a well-sorted program
@@ -315,7 +318,84 @@ def run_lazy_case(case):
     return out
 
 
-RUNNERS = {"query": run_query_case, "index": run_index_case, "mode": run_mode_case, "lazy": run_lazy_case}
+def run_registry_case(case):
+    """Family registry (C14): concrete / symbolic construction, rule inference,
+    clearing and no-domain queries; objects are identified by the order of
+    their concrete construction (the harness's own log - an input record)."""
+    from entity_query_language import let, an, entity, infer, symbolic_mode, rule_mode
+    reset_library()
+    log = {}                  # id(obj) -> construction index
+    keep = []
+    counter = [0]
+    inits = [0]
+    orig_init = world.Leaf.__init__
+
+    def counting_init(self, n=0, m=0):
+        inits[0] += 1
+        orig_init(self, n, m)
+    world.Leaf.__init__ = counting_init
+
+    def register(o):
+        counter[0] += 1
+        log[id(o)] = counter[0]
+        keep.append(o)
+
+    out = dict(case)
+    out["evs"] = []
+    try:
+        for ev in case["evs"]:
+            rec = dict(ev)
+            rec["exc"] = "none"
+            op = ev["op"]
+            try:
+                if op == "construct":
+                    cls = world.CLASSES[ev["cls"]]
+                    k = counter[0] + 1
+                    o = {"pos": lambda: cls(k % 3, 1), "kw": lambda: cls(n=k % 3, m=2), "default": lambda: cls()}[ev["style"]]()
+                    rec["isinst"] = type(o) is cls
+                    if rec["isinst"]:
+                        register(o)
+                    rec["inits"] = inits[0]
+                elif op == "symconstruct":
+                    cls = world.CLASSES[ev["cls"]]
+                    with symbolic_mode():
+                        o = cls(n=1) if ev["style"] == "kw" else cls()
+                    rec["symbolic"] = isinstance(o, SymbolicExpression)
+                    rec["inits"] = inits[0]
+                elif op == "infer":
+                    src = [o for o in keep if isinstance(o, world.Base) and id(o) in log][:ev["n"]]
+                    rec["got"] = []
+                    if ev["n"] > 0:
+                        x = let(world.Base, domain=src)
+                        with rule_mode():
+                            q = infer(entity(world.P(a=x), x.n >= 0))
+                        for inst in q.evaluate():
+                            if id(inst) in log:
+                                rec["got"].append(-1)       # an already registered object was handed out
+                            else:
+                                register(inst)
+                                rec["got"].append(log[id(inst)])
+                elif op == "clear":
+                    for c in list(Variable._cache_.values()):
+                        c.clear()
+                    Variable._cache_.clear()
+                elif op == "query":
+                    cls = world.CLASSES[ev["T"]]
+                    v = let(cls)
+                    with symbolic_mode():
+                        q = an(entity(v))
+                    rec["res"] = [log.get(id(o), -1) for o in q.evaluate()]
+            except Exception as e:
+                rec["exc"] = exc_name(e) + ":" + str(e)[:80]
+            for name, dflt in (("isinst", True), ("symbolic", True), ("inits", inits[0]), ("got", []), ("res", [])):
+                rec.setdefault(name, dflt)
+            out["evs"].append(rec)
+    finally:
+        world.Leaf.__init__ = orig_init
+    return out
+
+
+RUNNERS = {"registry": run_registry_case, "query": run_query_case, "index": run_index_case, "mode": run_mode_case, "lazy": run_lazy_case}
 
 
 def run_case(case):
